@@ -130,6 +130,11 @@ def parse_diagnostics(stderr_text, manifest, unit_lines, safety_clause):
         if prim is None or d.get("code"):
             rec = {"description": msg, "site": "-", "kind": "tool", "verifier_output": rendered}
             if prim is not None:
+                # an unknown UPPER_CASE name in extracted code: a constant the changed code introduced
+                mm = re.match(r"cannot find value `([A-Z][A-Z0-9_]*)` in this scope", msg)
+                po0 = origin_of(manifest, prim["line_start"])
+                if mm and po0.startswith("repo:"):
+                    rec["extra_item"] = "%s::%s" % (po0.split(":")[1], mm.group(1))
                 # a compile error inside spliced hint text (e.g. the hint names a local that the changed
                 # code renamed): the driver retries with the hints of that function dropped
                 po = origin_of(manifest, prim["line_start"])
@@ -233,7 +238,7 @@ def verus_cmd(path, extra=None):
     return ["verus", path, "--multiple-errors", "60", "--output-json", "--time", "--error-format=json"] + (extra or [])
 
 
-def run_unit(scratch, unit, prefixes, prop, tier, safety_default=None, drop_hints=None):
+def run_unit(scratch, unit, prefixes, prop, tier, safety_default=None, drop_hints=None, extra_items=None):
     work = os.path.join(scratch, "verus-" + unit)
     os.makedirs(work, exist_ok=True)
     vrs = os.path.join(CONTRACTS, unit + ".vrs")
@@ -242,6 +247,8 @@ def run_unit(scratch, unit, prefixes, prop, tier, safety_default=None, drop_hint
     xenv = dict(os.environ)
     if drop_hints:
         xenv["XTRACT_DROP_HINTS"] = ",".join(sorted(drop_hints))
+    if extra_items:
+        xenv["XTRACT_EXTRA_ITEMS"] = ",".join(sorted(extra_items))
     rc, so, se, w0 = run([XTRACT, scratch, vrs, out_rs, out_mf], timeout=120, env=xenv)
     if rc != 0:
         raise Undecided("xtract %s: %s" % (unit, (se or so).strip()[-600:]))
@@ -269,8 +276,10 @@ def run_unit(scratch, unit, prefixes, prop, tier, safety_default=None, drop_hint
     vr = res.get("verification-results", {})
     failures, tool = parse_diagnostics(se, manifest, unit_lines, safety)
     bad_hint_fns = {t["hint_fn"] for t in tool if t.get("hint_fn")} - set(drop_hints or ())
-    if bad_hint_fns:
-        return run_unit(scratch, unit, prefixes, prop, tier, safety_default, set(drop_hints or ()) | bad_hint_fns)
+    new_items = {t["extra_item"] for t in tool if t.get("extra_item")} - set(extra_items or ())
+    if bad_hint_fns or new_items:
+        return run_unit(scratch, unit, prefixes, prop, tier, safety_default, set(drop_hints or ()) | bad_hint_fns,
+                        set(extra_items or ()) | new_items)
     if vr.get("encountered-vir-error") or (not vr.get("success") and not failures and not tool):
         raise Undecided("verus could not process unit %s (dialect/type error): %s" % (unit, se[-1500:]))
     funcs = []
